@@ -74,4 +74,6 @@ let () = register "packser" packser
 let () = register "packref" packref
 let () = register "packparse" packparse
 let () = register "packbig" (fun _ -> "unmodelled")
+(* packhuge: images of 16 MiB and more - implementation + oracle only (the oracle is the layout of Proofs/PackSerialize.v: image) *)
+let () = register "packhuge" (fun _ -> "unmodelled")
 let () = register "sjis" (fun _ -> "unmodelled")
